@@ -388,6 +388,39 @@ def h_late_group(eng, how):
         eng.prove({str(u) for u in ureg.get_compatible_units("m")} & {"yd", "ft", "m"} == old_units, f"late-group:{how}:pre={pre}:compatible-under-default-system")
 
 
+def h_group_edit_failures(eng):
+    """an edit that is refused part-way leaves the memoised members in step with what was
+    actually changed; a group cannot use itself"""
+    lines = ["ua = [da]", "ub = [db]", "uc = [dc]", "@group G0", "    ga = 2 * ua", "    gb = 2 * ub", "@end", "@group G1 using G0", "    gc = 2 * uc", "@end", "@system S using G1", "@end"]
+    for pre in ("read", "unread"):
+        ureg = pint.UnitRegistry(lines, non_int_type=eng.ntype)
+        g0, g1, S = ureg.get_group("G0"), ureg.get_group("G1"), ureg.get_system("S")
+        if pre == "read":
+            set(g0.members), set(g1.members), set(S.members)
+        try:
+            g0.remove_units("ga", "nosuchunit")
+        except KeyError:
+            eng.prove(True, f"group-edit:{pre}:unknown-unit-refused")
+        # whatever the call did to the group's own names, the memoised closures say the same
+        own = set(g0._unit_names)
+        eng.prove(set(g0.members) == own, f"group-edit:{pre}:members-follow-own-names-after-partial-removal")
+        eng.prove(set(g1.members) == own | {"gc"} and set(S.members) == own | {"gc"}, f"group-edit:{pre}:users-follow-after-partial-removal")
+        try:
+            g0.add_groups("G0")
+        except ValueError:
+            eng.prove(True, f"group-edit:{pre}:self-cycle-refused")
+        except RecursionError:
+            eng.fail(f"group-edit:{pre}:self-cycle-recursion", stop=False)
+        else:
+            eng.fail(f"group-edit:{pre}:self-cycle-accepted", stop=False)
+        eng.prove("G0" not in g0._used_groups, f"group-edit:{pre}:self-cycle-leaves-no-edge")
+        try:
+            g1.remove_groups("G0", "nosuchgroup")
+        except KeyError:
+            pass
+        eng.prove(set(g1.members) == ({"gc"} | (own if "G0" in g1._used_groups else set())), f"group-edit:{pre}:members-follow-after-partial-group-removal")
+
+
 def _reach(uses, i):
     seen = set()
     todo = [i]
@@ -463,8 +496,10 @@ def cases(tier, seed):
         out.append(Case("H14.c", f"text:sep={sep!r}", M, "h_membership_text", {"sep": sep}, opts={"max_paths": 5000}, validate=2, weight=40.0))
     for where in ("first", "second", "only"):
         out.append(Case("H14.b", f"failed-system-declaration:{where}", M, "h_failed_system_declaration", {"where": where}, opts={"hash_mode": "mixed"}, validate=1))
+    out.append(Case("H14.c", "group-edit-failures", M, "h_group_edit_failures", {}, validate=1))
     for how in ("api", "text-using", "text"):
         out.append(Case("H14.c", f"late-group:{how}", M, "h_late_group", {"how": how}, validate=1))
     out.append(Case("H14.c-default", "members", M, "h_default_membership", {}, kind="conc"))
     out.append(Case("H14.d", "sys-attr", M, "h_sys_attr", {}, validate=1))
+    out.append(Case("H14.obs", "observed", "pvlib.harness.observed", "h_c14", {}, kind="conc"))
     return out
